@@ -181,7 +181,7 @@ theorem header1 (c : Bytes) : Track.add [] 0 [metaSeqName c] = [⟨0, metaSeqNam
 theorem toSMF0_exact (s : Song) (srt : List TEv → List TEv) (hd : Dom s) (hs : SortSpec srt) :
     ∃ tr body, toSMF0 srt s = some ⟨0, .metric (if s.ticks = 0 then 960 else s.ticks), [tr]⟩ ∧
       timeline 0 tr = [(0, metaText s.title), (0, metaCopyright s.composer)] ++ body ++ [(songEnd s, EOT)] ∧
-      body.Perm (sigChanges (4, 4) (laid (tq s) 0 s.bars) ++ (specEvents (tq s) (laid (tq s) 0 s.bars)).map tm) ∧
+      body.Perm (specSigs s ++ specAll s) ∧
       body.Pairwise (fun a b => a.1 ≤ b.1) := by
   let evts := setDeltas 0 (sigEvts (4, 4) (laid (tq s) 0 s.bars)) ++
     (laid (tq s) 0 s.bars).flatMap (trackEvents srt (tq s))
@@ -211,5 +211,209 @@ theorem toSMF0_exact (s : Song) (srt : List TEv → List TEv) (hd : Dom s) (hs :
     simpa [timeline] using this
   · rw [List.pairwise_map]
     exact (hs evts).2
+
+/-! ## `ToSMF1` -/
+
+theorem mem_insertNo (n x : Nat) : ∀ (l : List Nat), x ∈ insertNo n l ↔ x = n ∨ x ∈ l
+  | [] => by simp [insertNo]
+  | a :: r => by
+    simp only [insertNo]
+    split
+    · simp
+    · split
+      · rename_i h1 h2; subst h2; simp
+      · simp only [List.mem_cons, mem_insertNo n x r]
+        constructor
+        · rintro (h | h | h)
+          · exact Or.inr (Or.inl h)
+          · exact Or.inl h
+          · exact Or.inr (Or.inr h)
+        · rintro (h | h | h)
+          · exact Or.inr (Or.inl h)
+          · exact Or.inl h
+          · exact Or.inr (Or.inr h)
+
+theorem insertNo_sorted (n : Nat) : ∀ (l : List Nat), l.Pairwise (· < ·) → (insertNo n l).Pairwise (· < ·)
+  | [], _ => by simp [insertNo]
+  | a :: r, h => by
+    have h' := List.pairwise_cons.1 h
+    simp only [insertNo]
+    split
+    · rename_i hlt
+      refine List.Pairwise.cons ?_ h
+      intro x hx
+      simp only [List.mem_cons] at hx
+      rcases hx with hx | hx
+      · omega
+      · have := h'.1 x hx; omega
+    · split
+      · exact h
+      · rename_i h1 h2
+        refine List.Pairwise.cons ?_ (insertNo_sorted n r h'.2)
+        intro x hx
+        rw [mem_insertNo] at hx
+        rcases hx with hx | hx
+        · omega
+        · exact h'.1 x hx
+
+theorem mem_trackNos (n : Nat) : ∀ (l : List TEv), n ∈ trackNos l ↔ ∃ e ∈ l, e.trackNo = n
+  | [] => by simp [trackNos]
+  | e :: r => by
+    have ih := mem_trackNos n r
+    simp only [trackNos, List.foldr_cons] at ih ⊢
+    rw [mem_insertNo, ih]
+    constructor
+    · rintro (h | ⟨x, hx, h⟩)
+      · exact ⟨e, by simp, h.symm⟩
+      · exact ⟨x, by simp [hx], h⟩
+    · rintro ⟨x, hx, h⟩
+      simp only [List.mem_cons] at hx
+      rcases hx with hx | hx
+      · subst hx; exact Or.inl h.symm
+      · exact Or.inr ⟨x, hx, h⟩
+
+theorem trackNos_sorted : ∀ (l : List TEv), (trackNos l).Pairwise (· < ·)
+  | [] => by simp [trackNos]
+  | e :: r => by
+    have ih := trackNos_sorted r
+    simp only [trackNos, List.foldr_cons] at ih ⊢
+    exact insertNo_sorted _ _ ih
+
+theorem foldl_addTrack (f : Nat → Track) : ∀ (l : List Nat) (sm : File),
+    (l.foldl (fun sm n => sm.addTrack (f n)) sm).tracks = sm.tracks ++ l.map f ∧
+    (l.foldl (fun sm n => sm.addTrack (f n)) sm).tf = sm.tf
+  | [], sm => by simp
+  | a :: r, sm => by
+    obtain ⟨h1, h2⟩ := foldl_addTrack f r (sm.addTrack (f a))
+    simp only [List.foldl_cons, h1, h2]
+    simp [File.addTrack]
+
+/-- one event track of `ToSMF1` -/
+theorem eventTrack_timeline (names : List Bytes) (L : Nat) (sorted : List TEv) (n : Nat)
+    (hs : sorted.Pairwise (fun a b => a.abs ≤ b.abs)) (hgood : ∀ e ∈ sorted, e.abs ≤ L ∧ e.msg ≠ EOT)
+    (hL : L < 4294967296) :
+    timeline 0 (eventTrack names L sorted n) =
+      (0, metaSeqName (trackName names n)) :: (sorted.filter (fun e => e.trackNo = n)).map tm ++ [(L, EOT)] := by
+  have h1 : Track.isClosed [⟨0, metaSeqName (trackName names n)⟩] = false :=
+    snoc_open [] 0 _ (metaMsg_ne_EOT 3 _ (by decide))
+  have := emit_timeline [⟨0, metaSeqName (trackName names n)⟩] (sorted.filter (fun e => e.trackNo = n)) L h1
+    (by simp [endTick]) (hs.filter _) (fun e he => (hgood e (List.mem_filter.1 he).1).1) hL
+    (fun e he => (hgood e (List.mem_filter.1 he).1).2)
+  simp only [eventTrack, header1, addTrackNo_eq]
+  simpa [timeline] using this
+
+theorem sorted_ext : ∀ (a b : List Nat), a.Pairwise (· < ·) → b.Pairwise (· < ·) → (∀ n, n ∈ a ↔ n ∈ b) → a = b
+  | [], [], _, _, _ => rfl
+  | [], y :: ys, _, _, h => by have := (h y).2 (by simp); simp at this
+  | x :: xs, [], _, _, h => by have := (h x).1 (by simp); simp at this
+  | x :: xs, y :: ys, ha, hb, h => by
+    have ha' := List.pairwise_cons.1 ha
+    have hb' := List.pairwise_cons.1 hb
+    have hxy : x = y := by
+      have h1 := (h x).1 (by simp)
+      have h2 := (h y).2 (by simp)
+      simp only [List.mem_cons] at h1 h2
+      rcases h1 with h1 | h1
+      · exact h1
+      · rcases h2 with h2 | h2
+        · exact h2.symm
+        · have := hb'.1 x h1; have := ha'.1 y h2; omega
+    subst hxy
+    congr 1
+    apply sorted_ext xs ys ha'.2 hb'.2
+    intro n
+    constructor
+    · intro hn
+      have := (h n).1 (by simp [hn])
+      simp only [List.mem_cons] at this
+      rcases this with h1 | h1
+      · have := ha'.1 n hn; omega
+      · exact h1
+    · intro hn
+      have := (h n).2 (by simp [hn])
+      simp only [List.mem_cons] at this
+      rcases this with h1 | h1
+      · have := hb'.1 n hn; omega
+      · exact h1
+
+/-- `ToSMF1` on the domain: the bar track, then one track per used track number in ascending order -/
+theorem toSMF1_exact (s : Song) (srt : List TEv → List TEv) (hd : Dom s) (hs : SortSpec srt) :
+    ∃ (f : File) (bt : Track) (g : Nat → Track), toSMF1 srt s = some f ∧
+      f.tf = .metric (if s.ticks = 0 then 960 else s.ticks) ∧
+      f.tracks = bt :: (usedTracks s).map g ∧
+      timeline 0 bt = [(0, metaText s.title), (0, metaCopyright s.composer), (0, metaSeqName [0x62, 0x61, 0x72, 0x73])] ++
+        specSigs s ++ [(songEnd s, EOT)] ∧
+      ∀ n ∈ usedTracks s, ∃ body,
+        timeline 0 (g n) = (0, metaSeqName (trackName s.trackNames n)) :: body ++ [(songEnd s, EOT)] ∧
+        body.Perm (specOn s n) ∧ body.Pairwise (fun a b => a.1 ≤ b.1) := by
+  let placed := laid (tq s) 0 s.bars
+  let all := placed.flatMap (trackEvents srt (tq s))
+  let sigs := sigEvts (4, 4) placed
+  let bt0 : Track := [⟨0, metaText s.title⟩, ⟨0, metaCopyright s.composer⟩, ⟨0, metaSeqName [0x62, 0x61, 0x72, 0x73]⟩]
+  let bt := (addAll bt0 0 sigs).1.close (u32sub (songEnd s) (addAll bt0 0 sigs).2)
+  let f := fun n => eventTrack s.trackNames (songEnd s) (srt all) n
+  have hkey : ((srt all).map key).Perm ((specEvents (tq s) placed).map key) :=
+    ((hs all).1.map key).trans (all_key_perm s hd srt hs)
+  have hgood : ∀ e ∈ srt all, e.abs ≤ songEnd s ∧ e.msg ≠ EOT := by
+    intro e he
+    have : key e ∈ (srt all).map key := List.mem_map.2 ⟨e, he, rfl⟩
+    rw [hkey.mem_iff] at this
+    obtain ⟨x, hx, hxe⟩ := List.mem_map.1 this
+    have := spec_good s hd x hx
+    simp only [key, Prod.mk.injEq] at hxe
+    rw [← hxe.1, ← hxe.2.2]; exact this
+  have hfold := foldl_addTrack f (trackNos all) ((emptyFile (if s.ticks = 0 then 960 else s.ticks)).addTrack bt)
+  have hnos : trackNos all = usedTracks s := by
+    apply sorted_ext _ _ (trackNos_sorted _) (trackNos_sorted _)
+    intro n
+    rw [mem_trackNos, mem_trackNos]
+    constructor
+    · rintro ⟨e, he, rfl⟩
+      have : key e ∈ (srt all).map key := List.mem_map.2 ⟨e, ((hs all).1.mem_iff).2 he, rfl⟩
+      rw [hkey.mem_iff] at this
+      obtain ⟨x, hx, hxe⟩ := List.mem_map.1 this
+      simp only [key, Prod.mk.injEq] at hxe
+      exact ⟨x, hx, hxe.2.1⟩
+    · rintro ⟨x, hx, rfl⟩
+      have : key x ∈ (specEvents (tq s) placed).map key := List.mem_map.2 ⟨x, hx, rfl⟩
+      rw [← hkey.mem_iff] at this
+      obtain ⟨e, he, hxe⟩ := List.mem_map.1 this
+      simp only [key, Prod.mk.injEq] at hxe
+      exact ⟨e, ((hs all).1.mem_iff).1 he, hxe.2.1⟩
+  refine ⟨(trackNos all).foldl (fun sm n => sm.addTrack (f n))
+      ((emptyFile (if s.ticks = 0 then 960 else s.ticks)).addTrack bt), bt, f, ?_, ?_, ?_, ?_, ?_⟩
+  · simp only [toSMF1, (t32_eq s hd.res).1, mkBarLine_eq s hd, header3, addWithDeltas_setDeltas]
+    rfl
+  · rw [hfold.2]; rfl
+  · rw [hfold.1, hnos]; rfl
+  · have hsig : ∀ e ∈ sigs, e.abs ≤ songEnd s ∧ e.msg ≠ EOT := by
+      intro e he
+      have : tm e ∈ sigChanges (4, 4) placed := by
+        rw [← sigEvts_tm _ _ (dom_placed_sig s hd)]; exact List.mem_map.2 ⟨e, he, rfl⟩
+      exact sig_good s hd _ this
+    have hp : sigs.Pairwise (fun a b => a.abs ≤ b.abs) :=
+      sigEvts_pairwise (· ≤ ·) placed (4, 4)
+        ((laid_pairwise (tq s) s.bars 0).imp (fun {a b} h => by omega))
+    have h3 : Track.isClosed bt0 = false :=
+      snoc_open [⟨0, metaText s.title⟩, ⟨0, metaCopyright s.composer⟩] 0 _ (metaMsg_ne_EOT 3 _ (by decide))
+    have := emit_timeline bt0 sigs (songEnd s) h3 (by simp [bt0, endTick]) hp (fun e he => (hsig e he).1) hd.fits
+      (fun e he => (hsig e he).2)
+    rw [sigEvts_tm _ _ (dom_placed_sig s hd)] at this
+    simpa [bt0, timeline, specSigs] using this
+  · intro n _
+    refine ⟨((srt all).filter (fun e => e.trackNo = n)).map tm, ?_, ?_, ?_⟩
+    · exact eventTrack_timeline _ _ _ _ (hs all).2 hgood hd.fits
+    · rw [specOn, map_tm, map_tm]
+      apply List.Perm.map
+      have h1 : ((srt all).filter (fun e => e.trackNo = n)).map key =
+          ((srt all).map key).filter (fun k => k.2.1 = n) := by
+        rw [List.filter_map]; rfl
+      have h2 : ((specEvents (tq s) placed).filter (fun e => e.trackNo = n)).map key =
+          ((specEvents (tq s) placed).map key).filter (fun k => k.2.1 = n) := by
+        rw [List.filter_map]; rfl
+      rw [h1, h2]
+      exact hkey.filter _
+    · rw [List.pairwise_map]
+      exact (hs all).2.filter _
 
 end Midi.Sequencer
